@@ -5,11 +5,10 @@
  "enforce": ["SHA256_Update_internal"],
  "replace": ["SHA256_Transform"],
  "annotate": ["alg/sha256.c"],
- "defines": ["VERIF_HALLOC", "SHA_MAXOBJ=130", "HASH_MEMCPY_ONLY_BUF"],
+ "defines": ["VERIF_HALLOC", "SHA_MAXOBJ=0xffffffff", "HASH_MEMCPY_ONLY_BUF"],
  "models": ["models/hash_memcpy.c"],
- "thorough_defines": ["SHA_MAXOBJ=1024"],
  "timeout": 600,
- "assumptions": ["input object size <= SHA_MAXOBJ bytes (bounds the symbolic object only; the block loop is closed by its loop contract for every iteration count)",
+ "assumptions": ["input object size < 2^32 bytes (SHA_MAXOBJ; the block loop is closed by its loop contract for every iteration count)",
                  "memcpy = models/hash_memcpy.c (pointwise over-approximation for copies into ctx->buf, observed at the arbitrary ghost index)",
                  "compression function uninterpreted (trace contract T of SHA256_Transform, enforced in sha256_transform_T)"]
 }
